@@ -4,6 +4,7 @@ import json
 import os
 import subprocess
 
+import datetime
 from harness import worldprop, impl as I, common
 from harness.content import observable_doc
 
@@ -138,6 +139,77 @@ class C13Oracle(worldprop.Oracle):
                 if name in first and base in first and first[name] != first[base] and not str(first[base]).startswith("EXC"):
                     self.fail(idx, "a serializer object and document.serialize return different text", exporter=name, doc=di)
         self.texts = None
+        self.exported_midway(ops)
+
+    def exported_midway(self, ops):
+        """two worlds built by the same calls, one of them exported, compared, hashed, unified and flattened after every
+        single call: since exporting changes nothing, both must end up exporting the same texts (and equal documents);
+        in both, records whose time is set with set_time after the exports"""
+        import prov.model as M
+        idx = len(ops)
+        exps = exporters()
+        mid = ["xml", "rdf", "compare", "hash", "unified", "flattened", "json", "get_provn", "graph", "dot", "listing"]
+        worlds = []
+        for with_exports in (True, False):
+            im = I.Impl()
+            for o in ops:
+                if o[0] == "ObserveAll":
+                    continue
+                try:
+                    im.step(o)
+                except Exception:
+                    pass
+                if with_exports:
+                    for d in im.docs:
+                        for name in mid:
+                            try:
+                                exps[name](d)
+                            except Exception:
+                                pass
+            # a time set in place at the very end, in both worlds alike
+            k = 0
+            for d in im.docs:
+                for c in [d] + list(d.bundles):
+                    for r in c.get_records(M.ProvActivity):
+                        k += 1
+                        if k <= 3:
+                            try:
+                                r.set_time(datetime.datetime(2001, 2, 3, 4, 5, 6 + k), datetime.datetime(2002, 3, 4, 5, 6, 7))
+                            except Exception:
+                                pass
+            worlds.append(im)
+        a, b = worlds
+        if len(a.docs) != len(b.docs):
+            self.fail(idx, "exporting after every call changed how many documents the same calls build")
+            return
+        for di, (da, db) in enumerate(zip(a.docs, b.docs)):
+            # (the texts themselves may order attributes differently: a read accessor leaves an empty entry behind in a
+            # record's attribute dictionary, which is not content; what each text *says* must be the same)
+            if observable_doc(da) != observable_doc(db):
+                self.fail(idx, "a document exported after every call and its twin built by the same calls differ in content", doc=di)
+                return
+            for name, fmt in (("json", "json"), ("xml", "xml"), ("xml-force", "xml")):
+                try:
+                    ta, tb = exps[name](da), exps[name](db)
+                    ca = observable_doc(M.ProvDocument.deserialize(content=ta, format=fmt))
+                    cb = observable_doc(M.ProvDocument.deserialize(content=tb, format=fmt))
+                except Exception as e:
+                    ca = cb = None
+                if ca != cb:
+                    self.fail(idx, "a document exported after every call and its twin built by the same calls export texts that read back differently",
+                              exporter=name, doc=di)
+                    return
+            try:
+                ra, rb = exps["rdf"](da), exps["rdf"](db)
+                iso = rdf_iso(ra, rb)
+            except Exception:
+                iso = True
+            if not iso:
+                self.fail(idx, "a document exported after every call and its twin built by the same calls give non-isomorphic RDF", doc=di)
+                return
+            if not (da == db) or (da != db):
+                self.fail(idx, "a document exported after every call differs (==) from its twin built by the same calls", doc=di)
+                return
 
 
 def same_calls_texts(ops, hashseed):
